@@ -10,9 +10,21 @@ import (
 var alnumOrDashRegexp = regexp.MustCompile("[^a-z_0-9-]+")
 
 func GetIndividuals(document *gedcom.Document, placesMap map[string]*place) map[string]*gedcom.IndividualNode {
+	return getIndividuals(document, placesMap, LivingVisibilityShow)
+}
+
+// getIndividuals gives every individual that gets a page its page name. Living
+// individuals do not get a page unless they are shown, so they must not take a
+// name either: otherwise the page name of somebody with the same name (which
+// becomes "-1", "-2", ...) would depend on an individual that is hidden.
+func getIndividuals(document *gedcom.Document, placesMap map[string]*place, visibility LivingVisibility) map[string]*gedcom.IndividualNode {
 	individualMap := map[string]*gedcom.IndividualNode{}
 
 	for _, individual := range document.Individuals() {
+		if visibility != LivingVisibilityShow && individual.IsLiving() {
+			continue
+		}
+
 		name := individual.Name().String()
 
 		key := getUniqueKey(individualMap, alnumOrDashRegexp.
